@@ -736,7 +736,28 @@ func (u *Universe) ensureSliceCat(s *Sort) string {
 		u.ensureFun(fn, "("+s.Name+" "+s.Name+") "+s.Name)
 		u.axioms = append(u.axioms,
 			fmt.Sprintf("(forall ((a %s) (b %s)) (! (= (%s_len (%s a b)) (+ (%s_len a) (%s_len b))) :pattern ((%s a b))))", s.Name, s.Name, s.Name, fn, s.Name, s.Name, fn),
-			fmt.Sprintf("(forall ((a %s) (b %s) (k Int)) (! (= (select (%s_arr (%s a b)) k) (ite (< k (%s_len a)) (select (%s_arr a) k) (select (%s_arr b) (- k (%s_len a))))) :pattern ((select (%s_arr (%s a b)) k))))", s.Name, s.Name, s.Name, fn, s.Name, s.Name, s.Name, s.Name, s.Name, fn))
+			fmt.Sprintf("(forall ((a %s) (b %s) (k Int)) (! (= (select (%s_arr (%s a b)) k) (ite (< k (%s_len a)) (select (%s_arr a) k) (select (%s_arr b) (- k (%s_len a))))) :pattern ((select (%s_arr (%s a b)) k))))", s.Name, s.Name, s.Name, fn, s.Name, s.Name, s.Name, s.Name, s.Name, fn),
+			// the other direction: an element of an operand is an element of the concatenation (brings up the read of
+			// the concatenation when only the operand has been read)
+			fmt.Sprintf("(forall ((a %s) (b %s) (k Int)) (! (=> (and (<= 0 k) (< k (%s_len a))) (= (select (%s_arr (%s a b)) k) (select (%s_arr a) k))) :pattern ((%s a b) (select (%s_arr a) k))))", s.Name, s.Name, s.Name, s.Name, fn, s.Name, fn, s.Name),
+			fmt.Sprintf("(forall ((a %s) (b %s) (k Int)) (! (=> (and (<= 0 k) (< k (%s_len b))) (= (select (%s_arr (%s a b)) (+ k (%s_len a))) (select (%s_arr b) k))) :pattern ((%s a b) (select (%s_arr b) k))))", s.Name, s.Name, s.Name, s.Name, fn, s.Name, s.Name, fn, s.Name))
+	}
+	return fn
+}
+
+// ensureElem: list membership s_elem(s, x) <=> exists i. 0 <= i < len(s) and s[i] = x, with the two facts an SMT
+// solver cannot find by itself: every element read is a member, and membership in a concatenation is membership in
+// one of the operands (both follow from the definition; A-ELEM).
+func (u *Universe) ensureElem(s *Sort) string {
+	fn := s.Name + "_elem"
+	if !u.declared["fun:"+fn] {
+		cat := u.ensureSliceCat(s)
+		e := s.Elem.Name
+		u.ensureFun(fn, "("+s.Name+" "+e+") Bool")
+		u.axioms = append(u.axioms,
+			fmt.Sprintf("(forall ((s %s) (x %s)) (! (= (%s s x) (exists ((i Int)) (and (<= 0 i) (< i (%s_len s)) (= (select (%s_arr s) i) x)))) :pattern ((%s s x))))", s.Name, e, fn, s.Name, s.Name, fn),
+			fmt.Sprintf("(forall ((s %s) (i Int)) (! (=> (and (<= 0 i) (< i (%s_len s))) (%s s (select (%s_arr s) i))) :pattern ((select (%s_arr s) i))))", s.Name, s.Name, fn, s.Name, s.Name),
+			fmt.Sprintf("(forall ((a %s) (b %s) (x %s)) (! (= (%s (%s a b) x) (or (%s a x) (%s b x))) :pattern ((%s (%s a b) x))))", s.Name, s.Name, e, fn, cat, fn, fn, fn, cat))
 	}
 	return fn
 }
